@@ -3609,7 +3609,7 @@ class DecVar(Vars):
 
     def adapt(self, to):
 
-        if isinstance(to, (Scen, Sized, int)):
+        if isinstance(to, (Scen, Sized, int, np.integer)):
             self.evtadapt(to)
         elif isinstance(to, (RandVar, RandVarSub)):
             self.affadapt(to)
